@@ -2,6 +2,7 @@
 C17 — Functions that write into a caller's buffer only append to it.
 -/
 import JsonbModel.Proofs.SerLayout
+import JsonbModel.Proofs.SetRefine
 
 namespace Jsonb.Props
 open Jsonb JV
@@ -16,6 +17,26 @@ theorem C17_write_to_vec (pre : Bytes) (v : JV) (h : goodTop v = true) :
 theorem C17_encode_value (buf : Bytes) (v : JV) (h : good v = true) :
     ∃ ty len, encValue buf v = .ok (buf ++ (entry v).2, ty, len) :=
   ⟨_, _, encValue_spec v h buf⟩
+
+/-- both builders (the writers behind every editor and set function), with nested builders:
+the prior content is a prefix of the result and the appended part does not depend on it -/
+theorem C17_array_builder (pre : Bytes) (es : List BEntry) :
+    buildArrayInto pre es = (buildArrayInto [] es).map (pre ++ ·) := by
+  rw [buildArrayInto_spec, buildArrayInto_spec]; simp [Res.map, Res.bind]
+theorem C17_object_builder (pre : Bytes) (kvs : List (Bytes × BEntry)) :
+    buildObjectInto pre kvs = (buildObjectInto [] kvs).map (pre ++ ·) := by
+  rw [buildObjectInto_spec, buildObjectInto_spec]; simp [Res.map, Res.bind]
+
+/-- editors inherit it: e.g. delete_by_index, concat, array_distinct on array documents -/
+theorem C17_delete_by_index (vs : List JV) (hn : vs.length < 536870912) (hg : goodL vs = true)
+    (i : Int) (hi : -2147483648 ≤ i ∧ i ≤ 2147483647) (pre : Bytes) :
+    Fn.deleteByIndex (encodeSpec (arr vs)) i pre
+      = (Fn.deleteByIndex (encodeSpec (arr vs)) i []).map (pre ++ ·) := by
+  rw [deleteByIndex_arr vs hn hg i hi pre, deleteByIndex_arr vs hn hg i hi []]; simp [Res.map, Res.bind]
+theorem C17_array_distinct (vs : List JV) (hn : vs.length < 536870912) (hg : goodL vs = true) (pre : Bytes) :
+    Fn.arrayDistinct (encodeSpec (arr vs)) pre
+      = (Fn.arrayDistinct (encodeSpec (arr vs)) []).map (pre ++ ·) := by
+  rw [arrayDistinct_arr vs hn hg pre, arrayDistinct_arr vs hn hg []]; simp [Res.map, Res.bind]
 
 example : writeToVec [1, 2, 3] (.arr [.null, .str [0x61]]) =
     .ok ([1, 2, 3] ++ encodeSpec (.arr [.null, .str [0x61]])) := by decide
